@@ -29,6 +29,51 @@ Fixpoint pipe_trace (fuel : nat) (p : pstate) (acc : list sx) : list sx :=
         end
   end.
 
+(* RISC-V simulation life cycle: ops (0 tokens) load | 1 step | (2 fuel) run.
+   After every op: (outcome, observation).  outcome: load -> error option; step -> continue flag or
+   fault; run -> how it ended *)
+Inductive simst := SSingle (s : st) | SPipe (p : pstate).
+
+Definition sim_obs (x : simst) : sx :=
+  match x with SSingle s => sx_st s | SPipe p => sx_pstate p end.
+Definition sim_done (x : simst) : bool :=
+  match x with SSingle s => single_done s | SPipe p => pipe_done p end.
+Definition sim_arch (x : simst) : st := match x with SSingle s => s | SPipe p => pst p end.
+Definition sim_with_arch (x : simst) (s : st) : simst :=
+  match x with
+  | SSingle _ => SSingle s
+  | SPipe p => SPipe {| pst := s; lat := lat p; stalled := stalled p; saved := saved p; hazards := hazards p |}
+  end.
+
+Definition sim_apply (x : simst) (op : sx) : simst * sx :=
+  match op with
+  | Lx (Zx 0 :: toks :: _) =>
+      let '(s', e, img) := rv_load (sim_arch x) (map drline (dl toks)) in
+      (sim_with_arch x s', Lx [Zx 0; sx_opt sx_perr e])
+  | Zx 1 =>
+      match x with
+      | SSingle s => let '(c, s', f) := single_sim_step s in
+                     (SSingle s', Lx [Zx 1; sx_bool c; sx_opt sx_fault f])
+      | SPipe p => let '(c, p', f) := pipe_sim_step p in
+                   (SPipe p', Lx [Zx 1; sx_bool c; sx_opt sx_fault f])
+      end
+  | Lx (Zx 2 :: fuel :: _) =>
+      match x with
+      | SSingle s => let '(s', e) := single_run (Z.to_nat (dz fuel)) s in
+                     (SSingle s', Lx [Zx 2; match e with Done => Lx [Zx 0] | Faulted f => Lx [Zx 1; sx_fault f] | OutOfFuel => Lx [Zx 2] end])
+      | SPipe p => let '(p', e) := pipe_run (Z.to_nat (dz fuel)) p in
+                   (SPipe p', Lx [Zx 2; match e with PDone => Lx [Zx 0] | PFaulted f => Lx [Zx 1; sx_fault f] | POutOfFuel => Lx [Zx 2] end])
+      end
+  | _ => (x, Lx [])
+  end.
+
+Fixpoint sim_trace (ops : list sx) (x : simst) (acc : list sx) : list sx :=
+  match ops with
+  | [] => rev acc
+  | op :: t => let '(x', o) := sim_apply x op in
+               sim_trace t x' (Lx [o; sim_obs x'; sx_bool (sim_done x')] :: acc)
+  end.
+
 (* TOY: apply an op list, observing (outcome, state) after every op.
    ops: 0 step | 1 first half | 2 second half | 3 single | (4 fuel) run | (5 tokens) load *)
 Definition toy_apply (s : tstate) (op : sx) : tstate * sx :=
@@ -111,6 +156,12 @@ Definition dispatch (req : sx) : sx :=
     let c := if dz (dnth req 1) =? 0 then rv_memcfg else toy_memcfg (dz (dnth req 2)) in
     let '(rs, m) := flat_trace c (dl (dnth req 4)) (dpairs (dnth req 3)) [] in
     Lx [Lx rs; sx_zmap_sorted m; sx_zs (mkeys m)]
+  else if op =? 70 then
+    (* (70 five? hazards dcfg icfg regs ops) *)
+    let s0 := init_st [] (dmemsys (dnth req 3) []) (dicache (dnth req 4)) in
+    let s1 := fold_left (fun acc kv => rset acc (fst kv) (snd kv)) (dpairs (dnth req 5)) s0 in
+    let x0 := if dbool (dnth req 1) then SPipe (pipe_init s1 (dbool (dnth req 2))) else SSingle s1 in
+    Lx (sim_trace (dl (dnth req 6)) x0 [Lx [Lx []; sim_obs x0; sx_bool (sim_done x0)]])
   else if op =? 60 then
     (* assemble into a fresh state with the given cache configurations *)
     let s0 := init_st [] (dmemsys (dnth req 1) []) (dicache (dnth req 2)) in
